@@ -11,7 +11,7 @@ import warnings
 
 from crosshair.tracers import NoTracing
 
-from vf import base, lattice
+from vf import base, lattice, pkgstate
 from vf.pfbase import PP
 import prettyprinter as PKG
 
@@ -34,83 +34,18 @@ def _cells():
 _SNAP = {}
 
 
-def _state_modules():
-    import sys
-    return [m for n, m in sorted(sys.modules.items())
-            if (n == 'prettyprinter' or n.startswith('prettyprinter.')) and m is not None]
-
-
-def _generic_snapshot():
-    """Contents of every module-level container of the package (whatever its
-    name: a change to the code may add new module state), so that a reset
-    really restores the import-time state."""
-    import weakref
-    snap = []
-    for mod in _state_modules():
-        for name, v in list(vars(mod).items()):
-            if name.startswith('__'):
-                continue
-            if isinstance(v, dict) and type(v) is dict:
-                snap.append((mod, name, 'dict', dict(v)))
-            elif isinstance(v, list) and type(v) is list:
-                snap.append((mod, name, 'list', list(v)))
-            elif isinstance(v, set) and type(v) is set:
-                snap.append((mod, name, 'set', set(v)))
-            elif isinstance(v, weakref.WeakSet):
-                snap.append((mod, name, 'weakset', list(v)))
-            elif isinstance(v, (weakref.WeakKeyDictionary, weakref.WeakValueDictionary)):
-                snap.append((mod, name, 'weakdict', list(v.items())))
-    return snap
-
-
-def _generic_reset():
-    import weakref
-    known = set()
-    for mod, name, kind, content in _SNAP.get('generic', ()):
-        known.add((mod.__name__, name))
-        cur = vars(mod).get(name)
-        try:
-            if kind == 'dict' and isinstance(cur, dict):
-                cur.clear()
-                cur.update(content)
-            elif kind == 'list' and isinstance(cur, list):
-                cur[:] = content
-            elif kind == 'set' and isinstance(cur, set):
-                cur.clear()
-                cur.update(content)
-            elif kind == 'weakset' and isinstance(cur, weakref.WeakSet):
-                cur.clear()
-                for x in content:
-                    cur.add(x)
-            elif kind == 'weakdict':
-                cur.clear()
-                for k, x in content:
-                    cur[k] = x
-        except Exception:
-            pass
-    # memoising wrappers (functools.lru_cache / cache) anywhere in the package
-    for mod in _state_modules():
-        for name, v in list(vars(mod).items()):
-            cc = getattr(v, 'cache_clear', None)
-            if callable(cc) and getattr(v, '__module__', '').startswith('prettyprinter'):
-                try:
-                    cc()
-                except Exception:
-                    pass
-
-
 def snapshot():
-    if _SNAP:
+    pkgstate.snapshot_generic()
+    if 'registry' in _SNAP:
         return
     cells = _cells()
     _SNAP['registry'] = dict(cells['registry'])
     _SNAP['deferred'] = dict(PP._DEFERRED_DISPATCH_BY_NAME)
     _SNAP['predicates'] = list(PP._PREDICATE_REGISTRY)
-    _SNAP['generic'] = _generic_snapshot()
 
 
 def reset():
-    _generic_reset()
+    pkgstate.reset_generic()
     cells = _cells()
     registry = cells['registry']
     for k in list(registry):
